@@ -930,7 +930,7 @@ func (e *Engine) sweep(ps *PropertySpec, done map[string]*FuncGen) ([]*FuncGen, 
 					// the properties that list it; the sweep keeps its safety obligations only
 					var keep []*Obligation
 					for _, o := range g.obls {
-						if strings.HasPrefix(o.Kind, "safe.") {
+						if strings.HasPrefix(o.Kind, "safe.") || strings.HasPrefix(o.Kind, "cover.") || (o.Kind == "pre" && strings.Contains(o.Desc, "[inferred]")) {
 							keep = append(keep, o)
 						}
 					}
